@@ -82,6 +82,11 @@ def run(chk, repo, tier):
         n4 += sr.emit(chk, repo, q, {'slot': 'C08.R4', 'stale': 'C08.R4', 'canonical': 'C08.R4',
                                      'loop-entry': 'C08.R4', 'loop-invariant': 'C08.R4', 'outer-fixpoint': 'C08.R4'})
     sr.sign_rule(chk, repo, 'C08.R5')
+    from . import support
+    support.kernel_rules(chk, repo, 'C08.R7', ['apply_local_hamiltonian', 'apply_local_bond_contraction',
+                                               'contraction_operator_step_left', 'contraction_operator_step_right'])
+    support.krylov_rules(chk, repo, 'C08.K')
+    support.block_rules(chk, repo, 'C08.R9', ('qr', 'svd'))
     chk.floor('C08.R4', n4, 150, hard_min=60)
     for a in sorted(eng.assumed):
         chk.assume(a)
